@@ -381,6 +381,8 @@ def run(ctx):
                  fingerprint=['zero-length'])
     ctx.extra['pool_runs'] = pool_runs
     cache_pressure_scenario(ctx)
+    import cli_common
+    cli_common.cli_suite(ctx, ctx.budget(20, 200))      # --num-processes, documents longer than max_chunk_size
     glue_checks.full_stack_suite(ctx, ctx.budget(60, 600), batch=True)
     glue_checks.lazy_suite(ctx, ctx.budget(80, 800), batch=True)
     ctx.sample({'batch_sizes': 'sentences 2..7', 'variants': ['one call', 'permuted', 'subset', 'repeated', 'chunked']})
